@@ -1255,6 +1255,51 @@ WALLET_SHAPES = [('seeded',), ('key-only',), ('seeded', 'key-only'), ('watch-onl
                  ('seeded-short', 'watch-only', 'key-only')]
 
 
+@proof("C13", "wallet.disk.password-change")
+class DiskPasswordChange:
+    """BOUNDED stand-in, everything real: a wallet encrypted and saved under one password, then re-encrypted under ANOTHER password in
+    the same process (every save in between included): the file read back unlocks with the NEW password only - the old one is
+    refused and leaves it locked - and restores the same accounts; no plaintext secret in any of the files written"""
+    bounded_only = True
+    inputs = dict(old=TStr(), new=TStr(), shape=TInt(0, 5))
+    note = "6 wallet shapes x 4 password pairs (ASCII, accented, one a prefix of the other), extra saves between the two encryptions"
+
+    async def run(old, new, shape):
+        with tempfile.TemporaryDirectory(prefix='c13-') as d:
+            path = os.path.join(d, 'default_wallet')
+            w, ledger = real_wallet(WalletStorage(path), WALLET_SHAPES[shape])
+            plain = [real_view(a) for a in w.accounts]
+            secrets = secrets_of(w)
+            w.encrypt(old)
+            w.save()
+            text1 = open(path).read()
+            w.encrypt(new)
+            w.save()
+            text2 = open(path).read()
+            w2 = Wallet.from_storage(WalletStorage(path), _Manager(_Ledger()))
+            with_old = await w2.unlock(old)
+            locked_after_old = w2.is_locked
+            with_new = await w2.unlock(new)
+            return (plain, secrets, text1, text2, with_old, locked_after_old, with_new, [real_view(a) for a in w2.accounts],
+                    WALLET_SHAPES[shape])
+
+    def ensures_new_password_unlocks_and_restores(result):
+        return result[6] is True and result[7] == result[0]
+
+    def ensures_old_password_is_refused(result):
+        # (accounts without secrets have nothing to check a password against: known finding C13-F2)
+        has_secret = len(result[1]) >= 1
+        return (not has_secret) or (result[4] is False and result[5] is True)
+
+    def ensures_no_plaintext_secret_written(result):
+        return all(s not in result[2] and s not in result[3] for s in result[1])
+
+    def samples():
+        for shape in range(6):
+            for old, new in (('first', 'second'), ('pa\u00dfwort', 'pass'), ('abc', 'abcd'), ('x' * 40, 'y')):
+                yield dict(old=old, new=new, shape=shape)
+
+
 @proof("C13", "wallet.disk.end-to-end")
 class DiskEndToEnd:
     """BOUNDED stand-in, everything real (mnemonics, BIP32 keys, AES, json, the real file system in a fresh temporary
